@@ -364,7 +364,7 @@ def is_sir(name):
     return not name.startswith("SIS")
 
 
-def call_graph_entry(name, G, tau, gamma, mode, nodes, seeds, rec, rho, spy=None):
+def call_graph_entry(name, G, tau, gamma, mode, nodes, seeds, rec, rho):
     """nodes: the labels in G's order.  Returns the entry point's return value."""
     EoN = eon()
     f = getattr(EoN, name)
@@ -413,7 +413,9 @@ def limit_scenarios(name, ps, n, tier):
     return out
 
 
-def graph_of_key(n, key, weighted):
+def graph_of_key(n, key):
+    """the spec valuation as a networkx graph with labels 0..n-1 in sorted insertion order (edge attribute 'w',
+    node attribute 'g'); label-dependent indexing of some entry points is C14's subject, not C08's"""
     w, g = key[0], key[1]
     return netepi.build_graph(n, w, g, labels={u: u - 1 for u in range(1, n + 1)})
 
@@ -453,7 +455,7 @@ def c3_task(task):
     ("generic": also non-finite with tau=1, i.e. the closure is undefined on this input; "limit"), note"""
     name, n, key = task["name"], task["n"], task["key"]
     weighted_graph = any(x != 1 for x in key[0] if x) or any(x != 1 for x in key[1])
-    G = graph_of_key(n, key, True)
+    G = graph_of_key(n, key)
     gamma = key[3] * RATE_UNIT
     nodes = list(range(n))
     rows = []
@@ -549,7 +551,7 @@ def c3_base_task(task):
     task: wrapper, n, key, mode, seeds, rec, rho, bases, table"""
     EoN = eon()
     n, key = task["n"], task["key"]
-    G = graph_of_key(n, key, False)
+    G = graph_of_key(n, key)
     gamma = key[3] * RATE_UNIT
     nodes = list(range(n))
     mode, seeds, rec, rho = task["scenario"]
@@ -622,7 +624,7 @@ def c4_task(task):
     signatures.  Rows are dicts: mode, seeds, rho, dev, compared (number of report times compared), truncated,
     errs {entry: message}, nonfinite (None / "generic" / "limit"), nontrivial"""
     x, n, key = task["family"], task["n"], task["key"]
-    G = graph_of_key(n, key, True)
+    G = graph_of_key(n, key)
     tau = key[2] * RATE_UNIT
     nodes = list(range(n))
     weighted_graph = any(v != 1 for v in key[0] if v) or any(v != 1 for v in key[1])
@@ -708,7 +710,7 @@ def c5_scenarios(tier):
     return out
 
 
-ITS = 20000
+ITS = 4000
 
 
 def _long_time(run, N, discrete):
